@@ -332,6 +332,14 @@ def _const_name(stmt, default):
     return default
 
 
+def _syntactically_negative(n):
+    if isinstance(n, ast.UnaryOp) and isinstance(n.op, ast.USub):
+        return not _syntactically_negative(n.operand)
+    if isinstance(n, ast.Constant) and isinstance(n.value, int) and not isinstance(n.value, bool):
+        return n.value < 0
+    return False
+
+
 class TypeInfer:
     ORDER = {"i8": 0, "f8": 1, "c16": 2}
 
@@ -426,8 +434,13 @@ class TypeInfer:
             t = self.join(a, b)
             if isinstance(n.op, ast.Div) and t == "i8":
                 return "f8"
-            if isinstance(n.op, ast.Pow) and t == "i8" and isinstance(n.right, ast.UnaryOp):
-                return "f8"
+            if isinstance(n.op, ast.Pow) and a == "i8" and b == "i8" and _syntactically_negative(n.right):
+                # numba's integer power (int_power_impl / static_power_impl) stays in int64: base ** -n is 0 for |base| >= 2,
+                # the interpreter returns the float 1 / base ** n
+                self.problems.append(
+                    f"integer ** negative integer ({norm_text(n)[:50]}): the compiled kernel computes in int64 (0 unless the base is +-1), "
+                    "the interpreter gives the float reciprocal")
+                return "i8"
             if t.startswith("arr"):
                 return t
             return t
